@@ -7,10 +7,11 @@ def run(ctx):
     S.erv3_http_maps_errors(ctx)
     S.ord9_insert(ctx)
     T.tbl11_json_renderers(ctx)
+    S.ord14_multi_query_positional(ctx)
     return ctx.finish(
         'Static analysis: every handler that runs a query maps the error to a non-2xx response '
         'and none unwraps it; insert_bin answers 200 only on the Ready edge of the ingestion future '
         'and 400 without ingesting; the two JSON renderers map the Value variants identically and '
-        'the column type-signature bits are distinct powers of two. Value equality between HTTP and '
+        'the column type-signature bits are distinct powers of two; the multi-query handler gathers answers in request order. Value equality between HTTP and '
         'embedded results is not decided.',
         trusted_base=['rustc MIR printer of the pinned toolchain', 'mirlib text parser', 'syn'])
